@@ -30,12 +30,20 @@ def strip(n, d, e):
     return (n, d, e)
 
 
+def absorb(n, d, e):
+    while e > 0 and gcd(d, 1000) > 1:
+        n = ck(n * 1000)
+        g = gcd(abs(n), d)
+        n, d, e = n // g, d // g, e - 3
+    return (n, d, e)
+
+
 def norm(n, d, e):
     if n == 0:
         return (0, 1, 0)
     g = gcd(abs(n), abs(d))
     s = -1 if d < 0 else 1
-    return strip(ck(s * n) // g, ck(s * d) // g, e)
+    return strip(*absorb(ck(s * n) // g, ck(s * d) // g, e))
 
 
 def q(n, d=1):
